@@ -1035,8 +1035,8 @@ def mutants():
     from ..selftest import TextMutant as T
     return [
         T("inrow-endtable-unguarded", "html5parser.py",
-          "        # XXX how are we sure it's always ignored in the innerHTML case?\n        if not ignoreEndTag:\n            return token",
-          "        # XXX how are we sure it's always ignored in the innerHTML case?\n        return token", "C03.9"),
+          "        # Reprocess the current tag if the tr end tag was not ignored\n        # XXX how are we sure it's always ignored in the innerHTML case?\n        if not ignoreEndTag:\n            return token",
+          "        # Reprocess the current tag if the tr end tag was not ignored\n        return token", "C03.9"),
         T("intable-table-unguarded", "html5parser.py",
           "        self.parser.phase.processEndTag(impliedTagToken(\"table\"))\n        if not self.parser.innerHTML:\n            return token",
           "        self.parser.phase.processEndTag(impliedTagToken(\"table\"))\n        return token", "C03.9"),
